@@ -33,8 +33,8 @@ StableOn(w, r, tab) ==
       /\ Expressible(w, r, pv, c.ty) /\ Project(w, r, pv, c.ty) = tab[x].p
 InjectiveOn(tab) ==
    \A x, y \in DOMAIN tab : (tab[x].can /\ tab[y].can /\ tab[x].texts \cap tab[y].texts # {}) => tab[x].p = tab[y].p
-ProjectionLaws == c.ty # "seed" => LET tab == Tab(c) IN StableOn(StrictItems(c.fw), StrictItems(c.fr), tab) /\ InjectiveOn(tab)
-Clean == c.ty # "seed" => ~HasErr(StrictItems(c.fw)) /\ InFamily(c) /\ c.ty \in {"date", "time", "ndt", "dt"}
+ProjectionLaws == Member => LET tab == Tab(c) IN StableOn(StrictItems(c.fw), StrictItems(c.fr), tab) /\ InjectiveOn(tab)
+Clean == Member => ~HasErr(StrictItems(c.fw)) /\ InFamily(c) /\ c.ty \in {"date", "time", "ndt", "dt"}
 \* --- coverage of the specifier table by the family
 RECURSIVE SpecsFrom(_, _)
 SpecsFrom(s, i) ==      \* the set of specifiers (with their modifier) of a format string
@@ -66,7 +66,8 @@ ASSUME U("%H:%M:%S", "time") /\ U("%H:%M", "time") /\ U("%I:%M %p", "time") /\ U
 ASSUME ~U("%I:%M", "time") /\ ~U("%H", "time") /\ ~U("%H:%M%.f", "time") /\ ~U("%p", "time") /\ ~U("%H:%M:%S%.3f%.6f", "time")                       \* not a full time
 ASSUME U("%Y-%m-%dT%H:%M:%S%z", "dt") /\ U("%+", "dt") /\ U("%s", "dt") /\ U("%s %z", "dt") /\ U("%c %:z", "dt") /\ ~U("%Y-%m-%dT%H:%M:%S", "dt") /\ ~U("%c", "dt")
 ASSUME U("%s", "ndt") /\ U("%c", "ndt") /\ ~U("%s", "date") /\ ~U("%s %Y", "ndt")
-ASSUME \A str \in {"%Y-%m-%d %H:%M:%S %::z", "%Y-%m-%d %H:%M:%S %:::z", "%Y-%m-%d %H:%M:%S %Z %z", "%Y-%m-%d %H:%M:%S %#z"} : ~U(str, "dt")            \* print-only / read-only
+ASSUME \A str \in {"%Y-%m-%d %H:%M:%S %::z", "%Y-%m-%d %H:%M:%S %:::z", "%Y-%m-%d %H:%M:%S %Z", "%Y-%m-%d %H:%M:%S %#z"} : ~U(str, "dt")            \* print-only / read-only
+ASSUME U("%F %T %Z", "ndt") /\ U("%F %T %Z %z", "dt") /\ ~U("%F %T %Zx", "ndt") /\ ~U("%F %Z%T", "ndt")          \* %Z is skipped up to the next white space
 ASSUME Unambiguous(StrictItems(S("%F %T %:::z")), StrictItems(S("%F %T %#z")), "dt") /\ ~Unambiguous(StrictItems(S("%F %T %#z")), StrictItems(S("%F %T %#z")), "dt")
 ASSUME ~Unambiguous(StrictItems(S("%F %:::z %T")), StrictItems(S("%F %#z %T")), "dt")
 \* the values a format can express
